@@ -17,7 +17,7 @@ ASSUMPTIONS = ['pre-emption is at line granularity inside adb_shell files only; 
                'K1 (known finding) is classified by its exact signature; any other deviation in the same run is a violation']
 EXPECT_PROBES = {'all': ['short_writes', 'foreign_packet_parked', 'store_delivered', 'store_clse_parked', 'clse_dropped_for_live_stream', 'lock_contended', 'adversary_choice', 'preempt_line']}
 KINDS = ['shell', 'shell', 'exec_out', 'streaming_shell', 'stat', 'list', 'pull', 'push']
-OWN = ('wrong-result', 'unexpected-exception', 'timeout-instead-of-result', 'missing-exception', 'wrong-exception', 'hang', 'no-termination', 'deadlock',
+OWN = ('lost-clse', 'wrong-result', 'unexpected-exception', 'timeout-instead-of-result', 'missing-exception', 'wrong-exception', 'hang', 'no-termination', 'deadlock',
        'wire-format', 'protocol', 'store-model', 'push-content', 'push-missing', 'push-incomplete', 'push-duplicate', 'push-extra', 'lock-held')
 
 
@@ -78,6 +78,16 @@ def generate(seed, tier):
         cfg['task_order'] = g.pick([[0, 1, 2], [1, 0, 2], [2, 1, 0], [1, 2, 0]])
     scn = {'api': api, 'transport': 'mem', 'device': d, 'config': cfg, 'pre': [{'op': 'connect', 'rt': 30.0}], 'actors': actors, 'object': {'banner': 'simhost'}}
     return {'seed': seed, 'scn': scn}
+
+
+_OPEN = []
+
+
+def _open_ids():
+    if not _OPEN:
+        from ..batch import open_finding_ids
+        _OPEN.append(open_finding_ids('C06'))
+    return _OPEN[0]
 
 
 def _owner_rec(run, sid):
@@ -160,7 +170,12 @@ def evaluate(case, tapes=None):
         probs.append(O.P('lock-held', 'after all operations returned, locks are still held: %r' % locks))
     if flat and not probs and failed and len(failed) == len(flat) and classify_k1(run, failed):
         dr = run.store_shadow.k1_drops[0]
-        out['known'].append(('K1', 'CLSE of live stream (local id %d) read by a non-owner was dropped by _AdbPacketStore.put; the owner timed out (%s)' % (dr['local'], failed[0][1]['exc'])))
+        msg = 'CLSE of live stream (local id %d) read by a non-owner was dropped by _AdbPacketStore.put; the owner timed out (%s)' % (dr['local'], failed[0][1]['exc'])
+        if 'K1' in _open_ids():
+            out['known'].append(('K1', msg))
+        else:
+            # K1 is recorded as fixed: its signature is an ordinary violation again
+            probs.append(O.P('lost-clse', 'K1 signature: ' + msg))
     else:
         probs += flat
     out['violations'] = [p for p in probs if p[0] in OWN]
